@@ -224,6 +224,66 @@ def _mk_pipeline(nbody, as_child):
     return T_pipeline
 
 
+def _mk_pipeline_in(nbody, variant):
+    """Zone as bare child of a § section / of a depth-2 block, with a leading comment in front of it."""
+
+    def T_pipeline_in(body: str, fi: int, tagged: bool) -> int:
+        """
+        pre: len(body) <= N and 0 <= fi <= 2
+        post: _ != 0
+        """
+        from crosshair.core import realize
+        from crosshair.tracers import NoTracing
+        from octave_mcp.core import lexer as lx
+        from octave_mcp.core.ast_nodes import Assignment, Block, LiteralZoneValue, Section
+        from octave_mcp.core.emitter import emit
+        from octave_mcp.core.parser import Parser
+
+        fi, tagged = realize(fi), realize(tagged)
+        fence = FENCES[fi]
+        tag = "py" if tagged else ""
+        if _inner_fence(body, len(fence)):
+            return SKIP
+        with NoTracing():
+            if variant == "section":
+                head, ind = ["===D===", "A::1", "§1::S", "  C::2", "  // lc"], "  "
+                tail = ["  E::4", "Z::3", "===END===", ""]
+            else:
+                head, ind = ["===D===", "A::1", "B:", "  N:", "    C::2", "    // lc"], "    "
+                tail = ["    E::4", "  F::5", "Z::3", "===END===", ""]
+            text = "\n".join(head + [ind + fence + tag, "PLACEHOLDER", ind + fence] + tail)
+            toks, _ = lx.tokenize(text)
+            lit = [i for i, t in enumerate(toks) if t.type is lx.TokenType.LITERAL_CONTENT]
+            if len(lit) != 1 or toks[lit[0]].value != "PLACEHOLDER":
+                return VIOL
+        toks[lit[0]] = lx.Token(lx.TokenType.LITERAL_CONTENT, body, toks[lit[0]].line, 1)
+        doc = Parser(toks, strict_structure=True).parse_document()
+        if len(doc.sections) != 3 or doc.sections[0].value != 1 or doc.sections[2].value != 3:
+            return VIOL  # a fence never swallows or releases neighbouring fields
+        box = doc.sections[1]
+        if variant == "section":
+            if not isinstance(box, Section):
+                return VIOL
+        else:
+            if not isinstance(box, Block) or len(box.children) != 2 or not isinstance(box.children[0], Block) or box.children[1].key != "F" or box.children[1].value != 5:
+                return VIOL
+            box = box.children[0]
+        ch = box.children
+        if len(ch) != 3 or ch[0].key != "C" or ch[0].value != 2 or ch[1].key != "" or ch[2].key != "E" or ch[2].value != 4:
+            return VIOL
+        z = ch[1].value
+        if not isinstance(z, LiteralZoneValue) or z.fence_marker != fence or z.info_tag != (tag or None) or z.content != body:
+            return VIOL
+        if list(ch[1].leading_comments) != ["lc"]:
+            return VIOL
+        out = emit(doc)
+        want = head + [ind + fence + tag] + ([body] if body != "" else []) + [ind + fence] + tail
+        return HELD if out == "\n".join(want) else VIOL
+
+    T_pipeline_in.__doc__ = T_pipeline_in.__doc__.replace("N", str(nbody))
+    return T_pipeline_in
+
+
 def _mk_emit(nbody):
     def E_emit(content: str, fi: int, tagged: bool, indent: int, route: int) -> int:
         """
@@ -354,5 +414,7 @@ def obligations(tier):
     nb = 4 if th else 3
     obs.append(xh_ob(PROP, "T.tokenize-parse-emit[assignment-value]", _mk_pipeline(nb, False), timeout=3000 if th else 900, setup=_setup, stubs=st, bound=f"token layout from the real tokenizer on the skeleton; LITERAL_CONTENT value symbolic <= {nb} chars of any character, fence 3-5, with/without tag; zone as assignment value between two other fields", functions=tf))
     obs.append(xh_ob(PROP, "T.tokenize-parse-emit[bare-block-child]", _mk_pipeline(nb, True), timeout=3000 if th else 900, setup=_setup, stubs=st, bound=f"same, zone as bare child of a block at depth 1, followed by a sibling and a top-level field", functions=tf))
+    obs.append(xh_ob(PROP, "T.tokenize-parse-emit[bare-section-child-after-comment]", _mk_pipeline_in(nb, "section"), timeout=3000 if th else 900, setup=_setup, stubs=st, bound="same, zone as second of three children of a § section, a comment line in front of it, followed by a top-level field", functions=tf))
+    obs.append(xh_ob(PROP, "T.tokenize-parse-emit[bare-child-of-depth-2-block-after-comment]", _mk_pipeline_in(nb, "nested"), timeout=3000 if th else 900, setup=_setup, stubs=st, bound="same, zone as second of three children of a block nested in a block (indent 4), a comment line in front of it, followed by fields at depth 1 and 0", functions=tf))
     obs.append(xh_ob(PROP, "T.tokenize-parse-emit[bare-block-child-between-siblings]", _mk_pipeline(nb, 2), timeout=3000 if th else 900, setup=_setup, stubs=st, bound="same, zone as second of three children of a block", functions=tf))
     return select(obs, tier)
